@@ -258,3 +258,47 @@ func VfC15Inject() {
 	}
 	vf.Reach("done")
 }
+
+// VfC15FailedRekey: a key exchange that FAILS on a live session (a peer's hello
+// or peering request carrying a key share X25519 refuses - 32 zero bytes are
+// enough - or an unsupported exchange type) must leave the session as it was:
+// same keys, same send counters, same receive windows, no pending next key
+// touched. Otherwise the old keys stay in use while the counters restart:
+// sequence numbers (AEAD nonces) repeat under one key and recorded frames are
+// accepted again. A key exchange that succeeds installs new keys and restarts
+// counters and windows together.
+func VfC15FailedRekey() {
+	e := VfEncSession(vf.NewAEAD(1), vf.NewAEAD(2))
+	e.VfSeqStateEnc()
+	if vf.Bool() {
+		e.nextInKey, e.nextInCipher, _ = vfRolloverKey(e.inKey)
+	}
+	inC, outC, nextC := e.inCipher, e.outCipher, e.nextInCipher
+	snap := e.VfSeqSnap()
+	ro, po := e.reglSeqHandler.outSeq.Load(), e.prioSeqHandler.outSeq.Load()
+
+	share := vf.Bytes(32)
+	kxType := defaultKXType
+	if vf.Bool() {
+		kxType = "other"
+	}
+	var err error
+	if vf.Bool() {
+		_, _, err = e.InitKeyServer(share, kxType)
+	} else {
+		_, _, _ = e.InitKeyClientStart()
+		err = e.InitKeyClientComplete(share, kxType)
+	}
+	if err != nil {
+		vf.Assert(e.inCipher == inC && e.outCipher == outC, "failed-key-exchange-changed-the-keys")
+		vf.Assert(e.reglSeqHandler.outSeq.Load() == ro && e.prioSeqHandler.outSeq.Load() == po, "failed-key-exchange-restarted-send-counters-under-the-old-key")
+		vf.Assert(e.VfSeqSnap() == snap, "failed-key-exchange-reset-receive-windows-under-the-old-key")
+		vf.Assert(e.nextInCipher == nextC, "failed-key-exchange-dropped-the-pending-next-key")
+		vf.Reach("failed-rekey")
+		return
+	}
+	vf.Assert(e.inCipher != inC && e.outCipher != outC, "successful-key-exchange-kept-an-old-key")
+	vf.Assert(e.reglSeqHandler.outSeq.Load() == 0 && e.prioSeqHandler.outSeq.Load() == 0, "successful-key-exchange-kept-send-counters")
+	vf.Assert(e.nextInCipher == nil && e.nextInKey == nil, "successful-key-exchange-kept-a-pending-next-key")
+	vf.Reach("rekeyed")
+}
